@@ -177,3 +177,68 @@ theorem du_diag (du : Asm.DU) (env : Asm.Env) (st : Asm.St) (l c : Nat) (b a' : 
       | err lv => simp only at h; cases h; omega
 
 end Trion.C04
+
+namespace Trion.C04
+open Trion Trion.Asm Trion.Front
+
+/-- `.du* name` with an undefined name: either a diagnostic at once (no room for the placeholder), or the statement
+returns `Ok` having queued exactly one retry of itself, with the name still unevaluated -/
+theorem du_undef_stmt (du : Asm.DU) (env : Asm.Env) (st : Asm.St) (tbl : Asm.Table) (henv : env.paths ≠ [])
+    (hl : st.locals = some tbl) (hlt : st.localTasks = some []) (l c : Nat) (n : Bytes)
+    (hr : isRegister n = false) (hf : tbl.find n = none) :
+    ∀ st' r, Asm.duDirective du env st l c [.ident n] = .ok (st', r) →
+      st.errors.length + 1 ≤ st'.errors.length ∨
+      (r = .ok ∧ st'.locals = some tbl ∧ st'.errors = st.errors ∧
+        ∃ d, st'.localTasks = some [.data d false] ∧ d.arg = .ident n ∧ d.du = du) := by
+  intro st' r h
+  have hp : env.paths.isEmpty = false := by cases h : env.paths with | nil => exact absurd h henv | cons => rfl
+  have hev : Asm.evalArg env st (.ident n) = .ok (.noSuch n (.ident n)) := by
+    simp [Asm.evalArg, Asm.evalTable, hp, hl, Asm.evalIn, Simp.evaluateE, hr, Asm.Table.get, hf]
+  unfold Asm.duDirective at h
+  cases hc : Asm.currAddr st with
+  | none => rw [hc] at h; simp only at h; cases h; left; simp
+  | some addr =>
+    rw [hc] at h
+    simp only [Asm.arity, List.length_cons, List.length_nil, Nat.zero_add, if_true, Asm.DataExpr.apply, hev] at h
+    cases hw : Asm.DataExpr.writeData ⟨du, env.curName, l, c, addr, .ident n, false⟩ st (List.replicate du.size 0xBE) with
+    | stop s => rw [hw] at h; cases h
+    | ok q =>
+      obtain ⟨d2, st2, r2⟩ := q
+      rw [hw] at h
+      have hg := Asm.writeData_grew hw
+      unfold Asm.DataExpr.writeData at hw
+      cases r2 with
+      | err lv =>
+        simp only at h; cases h
+        left; simpa [Asm.Grew] using hg
+      | ok =>
+        simp only at h
+        cases hs : Asm.DataExpr.schedule d2 st2 false with
+        | stop s => rw [hs] at h; cases h
+        | ok st3 =>
+          rw [hs] at h
+          cases h
+          right
+          -- `write_data` changed the regions and `placed` only
+          split at hw
+          · rename_i s' p' hws
+            cases hw
+            simp only [Asm.DataExpr.schedule, Asm.addTask, Bool.false_eq_true, if_false, hlt] at hs
+            cases hs
+            exact ⟨rfl, hl, rfl, ⟨du, env.curName, l, c, addr, .ident n, p'⟩, by simp, rfl, rfl⟩
+          · cases hw
+          · cases hw
+
+/-- the retry of `.du* name` with the name still undefined reports `NoSuchVariable` -/
+theorem du_undef_task (d : Asm.DataExpr) (env : Asm.Env) (st : Asm.St) (tbl : Asm.Table) (henv : env.paths ≠ [])
+    (hl : st.locals = some tbl) (n : Bytes) (ha : d.arg = .ident n) (hr : isRegister n = false) (hf : tbl.find n = none) :
+    ∀ st' r, Asm.runTask Asm.encoder env st (.data d false) = .ok (st', r) → st.errors.length + 1 ≤ st'.errors.length := by
+  intro st' r h
+  have hp : env.paths.isEmpty = false := by cases h : env.paths with | nil => exact absurd h henv | cons => rfl
+  have hev : Asm.evalArg env st (.ident n) = .ok (.noSuch n (.ident n)) := by
+    simp [Asm.evalArg, Asm.evalTable, hp, hl, Asm.evalIn, Simp.evaluateE, hr, Asm.Table.get, hf]
+  simp only [Asm.runTask, Asm.runDataTask, Asm.DataExpr.apply, ha, hev, Bool.false_eq_true, if_false] at h
+  cases h
+  simp
+
+end Trion.C04
